@@ -90,7 +90,7 @@ ASSUMPTIONS = [
     'node can remain, and reported as unexpected-refusal otherwise',
     'the backup_list attribute is not part of the property and not judged']
 SHARDS   = {'quick': 8, 'thorough': 16}
-TIMEOUT  = {'quick': 300, 'thorough': 3000}
+TIMEOUT  = {'quick': 400, 'thorough': 5400}
 REQUIRED = {'rm_offers_checked'        : 150,
             'second_component_compared': 150,
             'node_entries_checked'     : 400,
@@ -555,7 +555,22 @@ def gen_case(rng, idx):
 # ------------------------------------------------------------------------------
 # execution of one case in a fresh interpreter (shard side)
 #
-def exec_case(case, workdir, tag):
+def exec_case(case, workdir, tag, attempts=3):
+    '''
+    run the case in a fresh interpreter.  A runner which disappears without
+    leaving an observation (killed from outside, watchdog) says nothing about
+    the property: the case is run again, up to `attempts` times.
+    '''
+    obs = None
+    for attempt in range(attempts):
+        obs = _exec_case(case, workdir, '%s.%d' % (tag, attempt))
+        if not obs.get('harness'):
+            obs['attempts'] = attempt + 1
+            break
+    return obs
+
+
+def _exec_case(case, workdir, tag):
 
     sdir = os.path.join(workdir, 'case.%s' % tag)
     shutil.rmtree(sdir, ignore_errors=True)
@@ -663,6 +678,8 @@ def judge(case, obs, res):
         return
 
     res.see('rm_sources', src)
+    if obs.get('attempts', 1) > 1:
+        res.count('runner_retries')
     if obs.get('qstat_calls'):
         res.count('qstat_called')
 
@@ -1182,6 +1199,9 @@ def _runner(sdir):
     os.waitpid(child, 0)
     if data:
         obs['second'] = json.loads(data.decode())
+    if first['ok'] and (not obs['second'] or obs['second'].get('harness')):
+        obs['harness'] = 'second component process failed: %s' \
+                         % (obs['second'] or {}).get('harness')
 
     tmp = 'obs.json.tmp'
     with open(tmp, 'w') as fout:
